@@ -183,7 +183,7 @@ func tailReturns(info *types.Info, body *ast.BlockStmt) (*ast.BlockStmt, bool) {
 			switch x := m.(type) {
 			case *ast.AssignStmt:
 				for _, l := range x.Lhs {
-					if i2, ok := ast.Unparen(l).(*ast.Ident); ok && info.ObjectOf(i2) == types.Object(v) {
+					if i2, ok := ast.Unparen(l).(*ast.Ident); ok && info.ObjectOf(i2) == types.Object(v) && info.Defs[i2] == nil {
 						left = true
 					}
 				}
@@ -211,6 +211,20 @@ func tailReturns(info *types.Info, body *ast.BlockStmt) (*ast.BlockStmt, bool) {
 	if !left && decl != nil && len(decl.Values) == 0 {
 		if z := zeroExpr(info, v.Type(), ret.Pos()); z != nil {
 			final = &ast.ReturnStmt{Return: ret.Return, Results: []ast.Expr{z}}
+		}
+	}
+	if !left && decl == nil {
+		// declared with a constant value (`sum := ""`) and never assigned on the way that is left: that constant
+		for _, s := range rest {
+			if as, ok := s.(*ast.AssignStmt); ok && as.Tok == token.DEFINE && len(as.Lhs) == len(as.Rhs) {
+				for i, l := range as.Lhs {
+					if id2, isID := l.(*ast.Ident); isID && info.ObjectOf(id2) == types.Object(v) {
+						if tv, has := info.Types[as.Rhs[i]]; has && (tv.Value != nil || tv.IsNil()) {
+							final = &ast.ReturnStmt{Return: ret.Return, Results: []ast.Expr{as.Rhs[i]}}
+						}
+					}
+				}
+			}
 		}
 	}
 	out := append([]ast.Stmt{}, rest...)
